@@ -83,3 +83,42 @@ Example gc_delete_two :
               g_next := tm_init 0; g_mark := tm_init false; g_w := false; g_l0 := [1; 3]; g_l1 := [] |} in
   map fst (gc_delete_freed g) = [1; 3].
 Proof. vm_compute. reflexivity. Qed.
+
+(* ---- the loop bounds as a parameter ------------------------------------------------------------ *)
+Lemma in_nrange_from lo hi i : In i (nrange_from lo hi) <-> lo <= i /\ i < hi.
+Proof.
+  unfold nrange_from. rewrite in_map_iff. split.
+  - intros [k [<- Hk]]. apply in_seq in Hk. lia.
+  - intros [H1 H2]. exists (N.to_nat (i - lo)). split; [lia|]. apply in_seq. lia.
+Qed.
+
+Lemma gc_delete_bounds_freed : forall lo cut g i o,
+  In (i, o) (gc_delete_freed_bounds lo cut g) <-> (lo <= i /\ i < g_size g - cut) /\ tget (g_obj g) i = Some o.
+Proof.
+  intros lo cut g i o. unfold gc_delete_freed_bounds. rewrite fold_is_flat_map. cbn [app].
+  rewrite in_flat, in_nrange_from. reflexivity.
+Qed.
+
+(* starting at cell 0 or 1 and running to mem_size, the loop releases the object of every allocated cell of a heap
+   whose nil cell is empty (GCSpec.wf_nil_empty: cell 0 never holds an object) *)
+Theorem gc_delete_bounds_complete : forall lo cut g,
+  lo <= 1 -> cut = 0 -> tget (g_obj g) 0 = None ->
+  forall i o, i < g_size g -> tget (g_obj g) i = Some o -> In (i, o) (gc_delete_freed_bounds lo cut g).
+Proof.
+  intros lo cut g Hlo Hcut Hnil i o Hi E. apply gc_delete_bounds_freed. subst cut.
+  split; [|exact E]. split; [|lia].
+  destruct (N.eq_dec i 0) as [->|Hn]; [congruence|lia].
+Qed.
+
+(* ... and any other upper bound loses the object of the last cell(s): the heap filled to the brim *)
+Theorem gc_delete_cut_leaks : forall lo cut size,
+  0 < cut -> 1 < size ->
+  tget (g_obj (brim_heap size)) 0 = None /\
+  exists o, tget (g_obj (brim_heap size)) (size - 1) = Some o /\
+            ~ In (size - 1, o) (gc_delete_freed_bounds lo cut (brim_heap size)).
+Proof.
+  intros lo cut size Hc Hs. unfold brim_heap; cbn [g_obj with_obj]. split.
+  - rewrite tget_set_other by lia. reflexivity.
+  - exists (OScalar 0 [7]). split; [apply tget_set_same|].
+    intro H. apply gc_delete_bounds_freed in H. cbn [g_size with_obj gc_new] in H. lia.
+Qed.
